@@ -33,6 +33,7 @@ MODULES = [
     "scaled",
     "roles",
     "degrees",
+    "siblings",
 ]
 
 
